@@ -363,7 +363,7 @@ func (in *Interp) states(h *Hist) []*DirState {
 
 func (in *Interp) Start() {
 	env := map[string]string{}
-	for _, k := range []string{"CI", "GITHUB_ACTIONS", "UPDATE_SNAPS", "NO_COLOR", "GOFLAGS", "BUILD_ID", "TRAVIS", "_"} {
+	for _, k := range []string{"CI", "GITHUB_ACTIONS", "UPDATE_SNAPS", "NO_COLOR", "GOFLAGS", "BUILD_ID", "BUILD_NUMBER", "TRAVIS", "_"} {
 		if v, ok := os.LookupEnv(k); ok {
 			env[k] = v
 		}
